@@ -146,6 +146,9 @@ func (w *world) observe(maxH int) (stored, orphans, inmain map[int]bool, best in
 	return
 }
 
+// a watchdog expiry is confirmed by a second run with a six times longer watchdog
+var watchdog = 30 * time.Second
+
 type divergence struct {
 	Step int
 	Prop string
@@ -180,8 +183,8 @@ func replay(steps []step, e uint64) *divergence {
 		}()
 		select {
 		case <-done:
-		case <-time.After(15 * time.Second):
-			return &divergence{i, "C12", "blocked", fmt.Sprintf("ProcessBlock(block %d) did not return within 15s", c.B)}
+		case <-time.After(watchdog):
+			return &divergence{i, "C12", "blocked", fmt.Sprintf("ProcessBlock(block %d) did not return within %s", c.B, watchdog)}
 		}
 		if (perr != nil) != c.Err || (perr == nil && orphan != c.Orphan) {
 			return &divergence{i, "C12", "ret", fmt.Sprintf("ProcessBlock(block %d) returned (orphan=%v, err=%v), specification says (orphan=%v, err=%v)", c.B, orphan, perr, c.Orphan, c.Err)}
@@ -279,7 +282,13 @@ func main() {
 				}
 			}
 			shapes[sh] = true
-			if d := replay(st, e); d != nil {
+			d := replay(st, e)
+			if d != nil && d.What == "blocked" {
+				watchdog *= 6
+				d = replay(st, e)
+				watchdog /= 6
+			}
+			if d != nil {
 				vh.Violation(d.Prop+":deliver:"+d.What, d.Msg, map[string]interface{}{"engine": "forks", "E": e, "steps": st, "diverges_at": d.Step, "prop": d.Prop})
 			}
 			if idx%5000 == 11 {
